@@ -1,5 +1,8 @@
 package main
 
 func init() {
-	propRules["C11"] = func(c *Ctx) { ruleLockDiscipline(c, lockSel{pairing: true, blocking: true}) }
+	propRules["C11"] = func(c *Ctx) {
+		ruleLockDiscipline(c, lockSel{pairing: true, blocking: true})
+		ruleLockOrder(c, "")
+	}
 }
